@@ -559,6 +559,11 @@ def placement_scenarios(tier):
     for fl in ("raw", "unchecked"):
         for off in (32, 4089):
             add(flavour=fl, func_page=0x10000000, off=off, tramp_delta_pages=-1, disp=1 << 20, packed=True)
+    # ... after an ordinary function of the program was forced to the same value in an earlier injector lifetime of the process
+    for v in (0, 1):
+        for off in (0, 64, 4090):
+            add(flavour="bool", boolv=v, func_page=0x10000000, off=off, tramp_delta_pages=2, disp=0, packed=True, prime_bool=True)
+            add(flavour="bool", boolv=v, func_page=0x7e0000000000, off=off, tramp_delta_pages=-3, disp=0, packed=(off != 4090), prime_bool=True)
     n_rand = 60 if tier == "quick" else 3000
     for _ in range(n_rand):
         fl = rnd.choice(["raw", "raw", "unchecked", "bool"])
